@@ -1,14 +1,36 @@
 #!/bin/sh
-# Replays every pre-fix finding twice: against its pre-fix tree (hooks only, commit 1043068, or the
-# commit before its own fix for findings made later: F13 -> 44353dd, F14 -> 27c644f; each must reproduce its
-# recorded violation) and against /repo as it is now (each must be clean).
+# Replays every kept pre-fix finding twice with today's simulator: against /repo's HEAD with the
+# finding's own fix commit(s) reverted in a scratch worktree (each must reproduce its recorded
+# violation) and against /repo as it is now (each must be clean).
+# findings/historical/ holds replay files recorded on the pre-fix tree 1043068 with the simulator
+# and hooks of that time (F1, F2, F6, F9, F9b, F11): their fixes cannot be reverted alone any more
+# (later fixes touch the same lines) and that tree lacks hooks the present simulator needs, so they
+# are kept as records only; each was shown to reproduce there and to be clean after its fix when it
+# was recorded (DESIGN.md section 7).
 W=/tmp/verif-prefix-repo
-[ -d "$W" ] || git -C /repo worktree add -q --detach "$W" 1043068 || exit 2
+git -C /repo worktree remove --force "$W" 2>/dev/null
+git -C /repo worktree add -q --detach "$W" HEAD || exit 2
 for f in /verif/findings/*.replay.json; do
-    case "$(basename "$f")" in F13*) PRE=44353dd ;; F14*) PRE=27c644f ;; *) PRE=1043068 ;; esac
-    git -C "$W" checkout -q --detach "$PRE" || exit 2
-    A=$(VERIF_REPO=$W /verif/check replay "$f" 2>/dev/null | grep -E "^VIOLATION|replay is clean|diverged" | head -1 | cut -c1-40)
+    case "$(basename "$f")" in
+        F3-*) FIX="187f1f1" ;;
+        F5-*) FIX="b1b08c8" ;;
+        F8-*) FIX="7c565b0" ;;
+        F10-*) FIX="fcef33a" ;;
+        F13*) FIX="f3476ca 2b266d3" ;;
+        F14-*) FIX="f3476ca" ;;
+        *) FIX="" ;;
+    esac
+    git -C "$W" reset -q --hard HEAD
+    A="(no fix commit known)"
+    if [ -n "$FIX" ]; then
+        if git -C "$W" revert --no-commit $FIX >/dev/null 2>&1; then
+            A=$(VERIF_REPO=$W /verif/check replay "$f" 2>/dev/null | grep -E "^VIOLATION|replay is clean|diverged" | head -1 | cut -c1-40)
+        else
+            git -C "$W" revert --abort 2>/dev/null; A="revert conflicts"
+        fi
+    fi
+    git -C "$W" reset -q --hard HEAD
     B=$(/verif/check replay "$f" 2>/dev/null | grep -E "^VIOLATION|replay is clean|diverged" | head -1 | cut -c1-40)
-    echo "$(basename "$f"): pre-fix tree: ${A:-?} | current tree: ${B:-?}"
+    echo "$(basename "$f"): fix reverted ($FIX): ${A:-?} | current tree: ${B:-?}"
 done
 git -C /repo worktree remove --force "$W"
